@@ -105,7 +105,7 @@ def mentions_unknown_tracked(prog, inv, body):
     return None
 
 
-def run_passes(prog, entries, crates, max_depth=7, max_passes=6, log=None):
+def run_passes(prog, entries, crates, max_depth=7, max_passes=6, log=None, setup=None):
     inv = absint_inv.Invariants(prog, crates)
     # only types whose slice field is not `pub` can carry an inferred invariant
     for head in list(inv.tracked):
@@ -115,7 +115,7 @@ def run_passes(prog, entries, crates, max_depth=7, max_passes=6, log=None):
             f = [x for x in adt['variants'][vi]['fields'] if x['name'] == fname][0]
             if f['vis'] != 'Public':
                 keep.append((vi, fname))
-        if keep:
+        if keep or inv.int_of.get(head):
             inv.tracked[head] = keep
         else:
             del inv.tracked[head]
@@ -124,6 +124,8 @@ def run_passes(prog, entries, crates, max_depth=7, max_passes=6, log=None):
     for p in range(max_passes):
         an = absint_interp.new_analyzer(prog, max_depth=max_depth)
         absint_inv.install(an, inv)
+        if setup:
+            setup(an)
         skipped = {}
         t0 = time.time()
         for b in entries:
